@@ -35,7 +35,12 @@ var c18Tpls = map[string]string{
 	"g.xml":  "<item a=\"{{ x }}\">{{ y }}</item>",
 	"h.xml":  "<i>{{ y|raw }}|{{ x|escape }}|{{ x|escape('html') }}</i>{% include inc %}",
 	"m.js":   "{% if x matches pat %}A{% else %}B{% endif %}{{ y }}{% if x matches pat %}C{% else %}D{% endif %}{% for i in l %}{{ i matches pat ? 1 : 0 }}{{ i in x ? 1 : 0 }}{% endfor %}{{ x|up }}",
-	"f.js":   "{% if x matches pat %}g('{{ y }}'){% endif %}{% for i in l %}{{ i }};{% endfor %}{{ x starts with pat ? 1 : 0 }}",
+	"n.html": "N{% include inc2 %}|{% include inc2 %}",
+	"k.txt":  "[{% include inc %}{% include inc %}]",
+	// executed with a nil context: a root-level set must stay inside the call
+	"s1.html": "{% set q = 'A' %}[{{ q }}{{ r }}]",
+	"s2.html": "{% set r = 'B' %}[{{ q }}{{ r }}]{% set q = 'C' %}",
+	"f.js":    "{% if x matches pat %}g('{{ y }}'){% endif %}{% for i in l %}{{ i }};{% endfor %}{{ x starts with pat ? 1 : 0 }}",
 }
 
 // c18ScenarioCap bounds the exploration of one scenario (a lock-based repair makes blocked
@@ -45,13 +50,16 @@ var c18ScenarioCap = 150 * time.Second
 const c18Inline = "<i>{{ x }}</i>{{ y }}"
 
 type c18Op struct {
-	parse bool
-	name  string
+	parse  bool
+	name   string
+	nilCtx bool   // Execute with a nil context
+	expect string // if set: the output the call has by construction (not only "what it returns alone in this process")
 }
 
 var c18Ops = []c18Op{
-	{false, "a.html"}, {false, "b.js"}, {false, "c.txt"}, {false, "d.css"}, {false, c18Inline}, {false, "e.html"}, {true, "b.js"}, {false, "f.js"}, {true, "a.html"},
-	{false, "g.xml"}, {false, "h.xml"}, {false, "m.js"},
+	{false, "a.html", false, ""}, {false, "b.js", false, ""}, {false, "c.txt", false, ""}, {false, "d.css", false, ""}, {false, c18Inline, false, ""}, {false, "e.html", false, ""}, {true, "b.js", false, ""}, {false, "f.js", false, ""}, {true, "a.html", false, ""},
+	{false, "g.xml", false, ""}, {false, "h.xml", false, ""}, {false, "m.js", false, ""},
+	{false, "n.html", false, ""}, {false, "s1.html", true, "[A]"}, {false, "s2.html", true, "[B]"},
 }
 
 // c18Epoch makes template names and patterns unique per schedule / iteration ("a~17.html" is served like
@@ -78,7 +86,7 @@ func c18Ctx(k int64, v int) map[string]stick.Value {
 		first = pre
 	}
 	return map[string]stick.Value{"x": pre + "<'\"&;\\", "y": "</script>", "l": []stick.Value{"<", "'", pre},
-		"base": c18Name("a.html", k), "inc": c18Name("c.txt", k), "pat": "^" + first + ".{0," + strconv.FormatInt(k%997+1, 10) + "}"}
+		"base": c18Name("a.html", k), "inc": c18Name("c.txt", k), "inc2": c18Name("k.txt", k), "pat": "^" + first + ".{0," + strconv.FormatInt(k%997+1, 10) + "}"}
 }
 
 // c18Loader: map lookup, falling back to the name as source (inline templates); a point before each load.
@@ -145,7 +153,11 @@ func c18Do(env *stick.Env, op c18Op, w io.Writer, k int64, v int) (res string) {
 		}
 		return "tree: " + norm(tree.Root().String())
 	}
-	err := env.Execute(name, w, c18Ctx(k, v))
+	ctx := c18Ctx(k, v)
+	if op.nilCtx {
+		ctx = nil
+	}
+	err := env.Execute(name, w, ctx)
 	if err != nil {
 		return "err=" + norm(err.Error())
 	}
@@ -228,6 +240,9 @@ func c18Sched(c core.Case) core.Result {
 			if bad == "" && o.results[i] != solo[i] {
 				bad = fmt.Sprintf("thread %d (%v) returned\n    %s\n  but alone it returns\n    %s", i, ops[i], o.results[i], solo[i])
 			}
+			if want := "err=<nil> out=" + ops[i].expect; bad == "" && ops[i].expect != "" && (o.results[i] != want || solo[i] != want) {
+				bad = fmt.Sprintf("thread %d (%v) returned\n    %s\n  (alone, later in this process: %s) but by construction it renders\n    %s", i, ops[i], o.results[i], solo[i], want)
+			}
 		}
 		if bad == "" {
 			return
@@ -308,8 +323,62 @@ func c18Race(c core.Case) core.Result {
 	return r
 }
 
+// c18Barrier: n threads run the same operation on one shared environment under the structured schedule "every
+// thread advances to its k-th scheduling point before any thread goes further, then each runs to completion":
+// all n calls are in flight at the same program point. N = [kind, n, op, k].
+func c18Barrier(c core.Case) core.Result {
+	kind, n, op, k := c.N[0], c.N[1], c18Ops[c.N[2]], c.N[3]
+	run := func(threads, k int) ([]string, *core.Sched) {
+		s := &core.Sched{}
+		env := c18Env(kind, s)
+		res := make([]string, threads)
+		bodies := make([]func(), threads)
+		ep := c18Epoch.Add(1)
+		for i := 0; i < threads; i++ {
+			i := i
+			bodies[i] = func() {
+				w := &c18Writer{s: s}
+				res[i] = c18Do(env, op, w, ep, i) + " out=" + w.buf.String()
+			}
+		}
+		s.Policy = func(s *core.Sched, opts []int) int {
+			for j, id := range opts {
+				if s.NPoints(id) < k {
+					return j
+				}
+			}
+			return 0
+		}
+		core.Explore(0, func(src *core.Src) { s.Run(src, bodies) })
+		return res, s
+	}
+	_, s1 := run(1, 0)
+	if k > s1.Points {
+		return core.Skipped("beyond-the-last-point")
+	}
+	res, s := run(n, k)
+	if s.Dead {
+		return core.Violation("deadlock", fmt.Sprintf("%d threads running %v, all advanced to point %d: every unfinished thread is blocked", n, op, k))
+	}
+	for i, r := range res {
+		want := c18Solo(kind, op, i)
+		if op.expect != "" {
+			want = "err=<nil> out=" + op.expect
+		}
+		if r != want {
+			return core.Violation("interference", fmt.Sprintf("%d calls of %v in flight on a shared %s environment, each advanced to its scheduling point %d of %d before any went on: call %d returned\n    %s\n  but alone it returns\n    %s", n, op, []string{"twig", "core"}[kind], k, s1.Points, i, r, want))
+		}
+	}
+	r := core.Okay(true, "ok")
+	r.States, r.Trans, r.Traces = int64(s.Points), int64(len(s.Trace)), 1
+	r.Cnt = map[string]int64{"barrier_schedules": 1}
+	return r
+}
+
 func c18Run(c core.Case) core.Result {
 	switch c.Fam {
+	case "barrier":
+		return c18Barrier(c)
 	case "sched":
 		return c18Sched(c)
 	case "race":
@@ -324,10 +393,15 @@ func c18Levels(tier string) []core.Level {
 		bound = 3
 	}
 	n := len(c18Ops)
+	// all pairs of the first 12 operations; the later ones (nested includes, nil-context calls) with themselves,
+	// with each other and with two of the first (html with blocks, css with include)
+	paired := func(i, j int) bool { return j < 12 || i >= 12 || i == 0 || i == 3 }
 	pairs := func(kind, bound int, emit func(core.Case)) {
 		for i := 0; i < n; i++ {
 			for j := i; j < n; j++ {
-				emit(core.Case{Fam: "sched", N: []int{kind, bound, i, j}})
+				if paired(i, j) {
+					emit(core.Case{Fam: "sched", N: []int{kind, bound, i, j}})
+				}
 			}
 		}
 	}
@@ -337,12 +411,25 @@ func c18Levels(tier string) []core.Level {
 		nTriples = len(triples)
 	}
 	lv := []core.Level{
-		{Name: "twig env: all pairs of 12 operations (incl. the same one twice), all schedules with <= 1 preemption", Gen: func(emit func(core.Case)) { pairs(0, 1, emit) }},
+		{Name: "twig env: pairs of 15 operations (incl. the same one twice), all schedules with <= 1 preemption", Gen: func(emit func(core.Case)) { pairs(0, 1, emit) }},
 		{Name: fmt.Sprintf("twig env: all pairs, all schedules with <= %d preemptions", bound), Gen: func(emit func(core.Case)) { pairs(0, bound, emit) }},
 		{Name: "core env: all pairs, all schedules with <= 1 preemption", Gen: func(emit func(core.Case)) { pairs(1, 1, emit) }},
 		{Name: fmt.Sprintf("twig env: %d three-thread scenarios, all schedules with <= 2 preemptions", nTriples), Gen: func(emit func(core.Case)) {
 			for _, t := range triples[:nTriples] {
 				emit(core.Case{Fam: "sched", N: append([]int{0, 2}, t...)})
+			}
+		}},
+		{Name: "64 calls in flight: 64 threads running the same operation, every thread advanced to its k-th scheduling point before any goes further, for every operation and every k", Gen: func(emit func(core.Case)) {
+			kinds := 1
+			if thorough(tier) {
+				kinds = 2
+			}
+			for kind := 0; kind < kinds; kind++ {
+				for op := 0; op < n; op++ {
+					for k := 0; k <= 250; k++ {
+						emit(core.Case{Fam: "barrier", N: []int{kind, 64, op, k}})
+					}
+				}
 			}
 		}},
 		{Name: "free-running pass under the race detector: 64 goroutines x every pair / triple scenario (sampling, adds detections only)", Race: true, Gen: func(emit func(core.Case)) {
@@ -353,7 +440,9 @@ func c18Levels(tier string) []core.Level {
 			for kind := 0; kind < kinds; kind++ {
 				for i := 0; i < n; i++ {
 					for j := i; j < n; j++ {
-						emit(core.Case{Fam: "race", N: []int{kind, 64, i, j}})
+						if paired(i, j) {
+							emit(core.Case{Fam: "race", N: []int{kind, 64, i, j}})
+						}
 					}
 				}
 				for _, t := range triples[:nTriples] {
